@@ -51,7 +51,65 @@ theorem chkC08first_of_chkCells (cfg : Cfg) (m : Mon) (r : StepRec) (h : chkCell
       simp only [Bool.not_true, Bool.false_or, Bool.and_eq_true]
       exact ⟨h1, h2⟩
 
+theorem cellsBy_mono (m : Mon) (r : StepRec) (g : Group) (rel1 rel2 : Nat → Cell → Cell → Option (Nat × Nat) → Bool)
+    (h : ∀ t o n a, rel1 t o n a = true → rel2 t o n a = true) (h1 : cellsBy m r g rel1 = true) :
+    cellsBy m r g rel2 = true := by
+  unfold cellsBy at *
+  simp only [List.all_eq_true, Bool.and_eq_true] at *
+  intro t ht
+  obtain ⟨hl, hc⟩ := h1 t ht
+  exact ⟨hl, fun i hi => h _ _ _ _ (hc i hi)⟩
+
+/-- C07's convergence clause is the error-free branch of C02's relation, restricted to progressive texts -/
+theorem chkC07conv_of_chkC02 (cfg : Cfg) (m : Mon) (r : StepRec) (h : chkC02 cfg m r = true) :
+    chkC07conv cfg m r = true := by
+  unfold chkC07conv
+  unfold chkC02 at h
+  split
+  · rfl
+  · rfl
+  · rename_i hi hc
+    split at h
+    · rename_i h0; exact absurd h0 hi
+    · rename_i h0; exact absurd h0 hc
+    · cases hg : r.op.group? with
+      | none => rfl
+      | some g =>
+        rw [hg] at h
+        simp only [] at h ⊢
+        apply cellsBy_mono m r g _ _ _ h
+        intro t o n a hr
+        unfold relC07conv
+        unfold relC02 at hr
+        cases a with
+        | none => rfl
+        | some p =>
+          obtain ⟨b, ex⟩ := p
+          simp only [] at hr ⊢
+          by_cases hp : (r.before.set.prog (textIdOf t) && decide (g.eb = 0) && decide (ex = 0)) = true
+          · rw [if_pos hp]
+            have hz : (decide (g.eb = 0) && decide (ex = 0)) = true := by
+              simp only [Bool.and_eq_true] at hp ⊢
+              exact ⟨hp.1.2, hp.2⟩
+            rw [if_pos hz] at hr
+            exact hr
+          · rw [if_neg hp]
+
+/-- the AF callback clause of C10 is one conjunct of `chkC04` -/
+theorem chkC10cb_of_chkC04 (m : Mon) (r : StepRec) (h : chkC04 m r = true) : chkC10cb m r = true := by
+  unfold chkC10cb
+  unfold chkC04 at h
+  cases hg : r.op.group? with
+  | none => rfl
+  | some g =>
+    rw [hg] at h
+    simp only [] at h ⊢
+    simp only [Bool.and_eq_true] at h
+    exact h.1.2
+
 end RDS
 
 #print axioms RDS.chkC08cb_of_chkC04
 #print axioms RDS.chkC08first_of_chkCells
+#print axioms RDS.chkC10cb_of_chkC04
+#print axioms RDS.chkC07conv_of_chkC02
